@@ -64,9 +64,16 @@ def list_harnesses(text):
     out = []
     for m in re.finditer(r'((?:#\[(?:[^\[\]]|\[[^\]]*\])*\]\s*)+)fn\s+(\w+)\s*\(', text):
         attrs = m.group(1)
-        if 'kani::proof' in attrs:
+        if 'kani::proof' in attrs and m.group(2) != '$name':
             out.append((m.group(2), attrs))
+    # harnesses stamped out by the `per_shape!(body: name = shape, ...)` macro of a harness file
+    for m in re.finditer(r'per_shape!\(\s*\w+\s*:([^;]*?)\);', text):
+        for n in re.findall(r'(\w+)\s*=\s*\d+', m.group(1)):
+            out.append((n, '#[kani::proof] (per_shape!)'))
     return out
+
+
+INJECTED_RE = re.compile(rb'\n#\[cfg\((?:kani|all\(kani[^\n]*)\)\]\nmod verif_\w+;\n')
 
 
 def crate_fingerprint(repo_dir, crate):
@@ -79,7 +86,8 @@ def crate_fingerprint(repo_dir, crate):
             if '/bin/' in p or os.path.basename(p).startswith('verif_'):
                 continue
             h.append(os.path.relpath(p, repo_dir))
-            h.append(open(p, 'rb').read())
+            # (without the `mod verif_*;` lines earlier units of this run injected into the scratch copy)
+            h.append(INJECTED_RE.sub(b'', open(p, 'rb').read()))
     for p in ('Cargo.toml', 'Cargo.lock'):
         fp = os.path.join(repo_dir, p)
         if os.path.exists(fp):
